@@ -149,7 +149,13 @@ func runPhased(r *Run, in *epochInput) historyResult {
 						lo := math.Floor(carryIn+se-1e-6) - 0
 						hi := math.Floor(carryIn+se+1e-6) + 1
 						if float64(q) < lo || float64(q) > hi {
-							bad("quota-floor-carry", fmt.Sprintf("species quota %d is not the floor of its members' expected offspring %.6f plus carried fraction %.6f (+1 make-up)", q, se, carryIn))
+							key := "quota-floor-carry"
+							if in.FitRule == 7 {
+								// the expected offspring do not sum to N (rounded subnormal average): the make-up /
+								// fallback code then hands out quotas that are not floors of anything
+								key = "subnormal-fitness-quota-overshoot"
+							}
+							bad(key, fmt.Sprintf("species quota %d is not the floor of its members' expected offspring %.6f plus carried fraction %.6f (+1 make-up)", q, se, carryIn))
 						}
 						carryIn = carryIn + se - math.Floor(carryIn+se+1e-9)
 						if carryIn < 0 {
